@@ -61,6 +61,8 @@ fixed("F51", "C14", "0b515b8", "C14.keyword-space|kw|print_if_expr|If", "mimium-
 fixed("F52", "C14", "74fa295", "C14.list-items|items|print_grouped_list", "mimium-fmt printed `fn f(x:float, g = 2.0, h)` as `fn f(x, :float, g, =2.0, h)`: the shared list printer skipped the comma tokens and put its own separator after every child, also inside a typed parameter or a default value (a different, unparsable program); findings/repro/F52_*.mmm")
 for _p in ("C05", "C03"):
     fixed("F57", _p, "6fde856", "C05.cursor|resize-before-execute|execute_main", "`fn counter(x){ self + x }  let init = counter(5.0)  fn dsp(){ init }`: Machine::execute_main ran the global initialiser on the global state storage without sizing it (only execute_idx did), so the stateful call wrote through an unchecked pointer into an empty Vec: SIGSEGV on the VM while WASM answered 5.0 (findings/repro/F57_*.mmm); execute_main now grows the storage to main's layout first")
+for _p in ("C08", "C07"):
+    fixed("F60", _p, "7021963", "C08.lcs|walk|diagonal-ignores-table", "old [A,B] -> new [A,B,X] with A=F(M1,S1), B=F(M1,D1), X=F(M1,M2): lcs_by_score walked back taking the diagonal whenever the pair scored > 0, pairing B with X and A with B; only 2 of the 6 surviving words were carried, into the wrong cells. 3124 of 136640 single-subtree insertions (and as many removals) over layouts of <= 5 nodes lost surviving words; 0 after the repair (findings/repro/F60_lcs_greedy_walk/)")
 fixed("F58", "C01", "cd5c593", "C01.prims|closure-state|reset", "`fn dsp(){ let k=1.0  let f = | |{self+k}  f() + mem(now) }`: the WASM host keys closure state by linear-memory address, fills it lazily and never removed an entry, and the bump allocator re-uses the addresses every tick: WASM 1,2,4,6,8 vs VM 1,1,2,3,4 (findings/repro/F58_closure_state_per_tick.mmm); a new import closure_state_reset is called where MakeClosure / Closure allocate")
 fixed("F59", "C01", "6d6ce53", "C01.defaults|default-rate|RuntimeState.sample_rate|default", "`let sr = samplerate  fn dsp(){ sr }`: globals are evaluated before the host sets the rate; RuntimeState::default said 44100 while every driver, the CLI options and WasmDspRuntime's cache say 48000: WASM 44100 vs VM 48000 (findings/repro/F59_global_samplerate.mmm)")
 fixed("F59", "C06", "6d6ce53", "C06.wasm|initial-setting|sample_rate", "same defect seen from the hot swap: the prewarmed engine ran `main` with 44100, try_hot_swap then re-applied the cached 48000")
